@@ -10,6 +10,8 @@ variable (W : World) (L : Lib)
 
 structure Healthy : Prop where
   noRaise : ∀ i ctx, W.parse i ctx ≠ .raise
+  /-- no two items clash: every extension can be added to every theory (no "Constant … already exists") -/
+  noClash : ∀ i ctx, W.extend i ctx = true
   topo : topoCheck L.imps L.names = none
   orders : ∀ n ∈ L.names, ∃ ord, L.order (L.imports n) = some ord ∧ ∀ p ∈ ord, p ∈ L.names
   modLoads : ∀ m n, Act.load n ∈ W.body m → n ∈ L.names
@@ -44,8 +46,23 @@ theorem parseAll_noRaise (P : Item → List Item → PRes) (hP : ∀ i ctx, P i 
       obtain ⟨c, hc⟩ := Option.isSome_iff_exists.mp this
       rw [hc]; rfl
 
-theorem pf_none (i : Item) (ctx : List Item) : W.pf none i ctx = W.parse i ctx := by
-  unfold World.pf; simp
+theorem pf_none_noRaise (hH : Healthy W L) (i : Item) (ctx : List Item) : W.pf none i ctx ≠ .raise := by
+  unfold World.pf
+  simp only [reduceCtorEq, if_false]
+  cases hp : W.parse i ctx with
+  | raise => exact absurd hp (hH.noRaise i ctx)
+  | ok => simp [hH.noClash i ctx]
+  | err => simp
+
+theorem extendList_ok (hH : Healthy W L) : ∀ (items acc : List Item), (extendList W acc items).2 = true := by
+  intro items
+  induction items with
+  | nil => intro acc; rfl
+  | cons i is ih =>
+    intro acc
+    rw [extendList]
+    simp only [hH.noClash i acc, if_true]
+    exact ih _
 
 theorem entry_of_mem {s : State} (hi : Inv W L s) (hc : s.cache.isSome) {n : Name} (hn : n ∈ L.names) :
     ∃ e, s.entry n = some e ∧ e.imports = L.imports n := by
@@ -60,10 +77,10 @@ theorem entry_of_mem {s : State} (hi : Inv W L s) (hc : s.cache.isSome) {n : Nam
     simp only [Option.map_some, Option.some.injEq] at h
     exact ⟨e, by unfold State.entry; rw [hT]; exact hTn, h⟩
 
-theorem loopDeps_ok {rec : Name → State → R} (hrec : ∀ p s, Inv W L s → LtcPost W L p s (rec p s))
+theorem loopDeps_ok (hH : Healthy W L) {rec : Name → State → R} (hrec : ∀ p s, Inv W L s → LtcPost W L p s (rec p s))
     (hrec2 : ∀ p s, Inv W L s → p ∈ L.names → OkOrFuel (rec p s).1) :
     ∀ (order : List Name) (s : State) (acc : List (Name × Nat)), Inv W L s → (∀ p ∈ order, p ∈ L.names) →
-      OkOrFuel (loopDeps rec order s acc).1 := by
+      OkOrFuel (loopDeps W rec order s acc).1 := by
   intro order
   induction order with
   | nil => intro s acc _ _; exact Or.inl rfl
@@ -81,8 +98,8 @@ theorem loopDeps_ok {rec : Name → State → R} (hrec : ∀ p s, Inv W L s → 
       exact h2
     | none =>
       obtain ⟨e, he, _⟩ := hent rfl
-      simp only [he]
-      exact ih _ _ (hrel.inv.of_sameCore (sameCore_extend _ _)) (fun q hq => hmem q (List.mem_cons_of_mem _ hq))
+      simp only [he, extendList_ok W L hH, if_true]
+      exact ih _ _ (hrel.inv.of_sameCore (sameCore_setThy _ _)) (fun q hq => hmem q (List.mem_cons_of_mem _ hq))
 
 theorem ltcBody_ok (hH : Healthy W L) {rec : Call → State → R} (hrec : RecOk W L none rec) (hrec2 : RecOk2 W L rec)
     (n : Name) (hn : n ∈ L.names) {s : State} (hi : Inv W L s) : OkOrFuel (ltcBody W none rec n s).1 := by
@@ -131,9 +148,9 @@ theorem ltcBody_ok (hH : Healthy W L) {rec : Call → State → R} (hrec : RecOk
       rw [hord]
       simp only []
       have hipush : Inv W L s2.push := hl1.inv.of_sameCore (sameCore_push s2)
-      have hlo := loopDeps_ok W L (rec := fun p s => rec (.ltc p) s) (fun p s hs => hrec (.ltc p) s hs)
+      have hlo := loopDeps_ok W L hH (rec := fun p s => rec (.ltc p) s) (fun p s hs => hrec (.ltc p) s hs)
         (fun p s hs hp => hrec2 (.ltc p) s hs hp) ord s2.push [] hipush hmem
-      rcases hlp : loopDeps (fun p s => rec (.ltc p) s) ord s2.push [] with ⟨r3, s3, deps⟩
+      rcases hlp : loopDeps W (fun p s => rec (.ltc p) s) ord s2.push [] with ⟨r3, s3, deps⟩
       rw [hlp] at hlo
       cases r3 with
       | some e' => exact hlo
@@ -141,7 +158,7 @@ theorem ltcBody_ok (hH : Healthy W L) {rec : Call → State → R} (hrec : RecOk
         simp only []
         unfold parseStep
         simp only []
-        have hpa := parseAll_noRaise (W.pf none) (fun i ctx => by rw [pf_none]; exact hH.noRaise i ctx)
+        have hpa := parseAll_noRaise (W.pf none) (pf_none_noRaise W L hH)
           ((s3.logEv (.readFile n)).files n).items ((s3.logEv (.readFile n)).thy.getD [])
         obtain ⟨c, hc⟩ := Option.isSome_iff_exists.mp hpa
         rw [hc]
@@ -197,7 +214,7 @@ theorem impBody_ok (hH : Healthy W L) {rec : Call → State → R} (hrec : RecOk
 
 theorem loadBody_ok (hH : Healthy W L) {rec : Call → State → R} (hrec : RecOk W L none rec) (hrec2 : RecOk2 W L rec)
     (n : Name) (lim : Limit) (hn : n ∈ L.names) {s : State} (hi : Inv W L s) :
-    OkOrFuel (loadBody rec n lim s).1 ∨ ((loadBody rec n lim s).1 = some .limit ∧ ∃ i, lim = .item i) := by
+    OkOrFuel (loadBody W rec n lim s).1 ∨ ((loadBody W rec n lim s).1 = some .limit ∧ ∃ i, lim = .item i) := by
   unfold loadBody
   have h1 := hrec (.ltc n) s hi
   have h2 := hrec2 (.ltc n) s hi hn
@@ -221,11 +238,11 @@ theorem loadBody_ok (hH : Healthy W L) {rec : Call → State → R} (hrec : RecO
     rw [hord]
     simp only []
     have hsc : SameCore s1 { s1 with thy := some [] } := ⟨rfl, rfl, rfl⟩
-    have hlo := loopDeps_ok W L (rec := fun p s => rec (.ltc p) s) (fun p s hs => hrec (.ltc p) s hs)
+    have hlo := loopDeps_ok W L hH (rec := fun p s => rec (.ltc p) s) (fun p s hs => hrec (.ltc p) s hs)
       (fun p s hs hp => hrec2 (.ltc p) s hs hp) ord { s1 with thy := some [] } [] (hrel.inv.of_sameCore hsc) hmem
     have hloop := loopDeps_post W L (fun p s => rec (.ltc p) s) (fun p s hs => hrec (.ltc p) s hs) ord
       { s1 with thy := some [] } [] (hrel.inv.of_sameCore hsc)
-    rcases hlp : loopDeps (fun p s => rec (.ltc p) s) ord { s1 with thy := some [] } [] with ⟨r2, s2, deps⟩
+    rcases hlp : loopDeps W (fun p s => rec (.ltc p) s) ord { s1 with thy := some [] } [] with ⟨r2, s2, deps⟩
     rw [hlp] at hlo hloop
     obtain ⟨hr2, _, _⟩ := hloop
     simp only [] at hr2
@@ -240,59 +257,18 @@ theorem loadBody_ok (hH : Healthy W L) {rec : Call → State → R} (hrec : RecO
       | none =>
         simp only [he2]
         have hbl : (beforeLimit e2.content .none).2 = true := rfl
-        simp only [hbl, if_true]
+        simp only [hbl, extendList_ok W L hH, if_true]
         exact Or.inl (Or.inl rfl)
       | item i =>
         simp only [he2]
         by_cases hbl : (beforeLimit e2.content (.item i)).2 = true
-        · simp only [hbl, if_true]; exact Or.inl (Or.inl rfl)
-        · simp only [hbl]; exact Or.inr ⟨rfl, i, rfl⟩
-
-/-- what the specification computes, given that the cache holds the specified content of `n` and the theory under
-    construction holds the specified context -/
-theorem specLoad_eq (n : Name) (lim : Limit) (order : List Name) (content : List (Item × PRes)) (ctx : List Item)
-    (htopo : topoCheck L.imps L.names = none) (hord : L.order (L.imports n) = some order)
-    (hsp : ∀ k, specContent W L k n ≠ .error .fuel → specContent W L k n = .ok content)
-    (hctx : ∀ k, ctxOf (specContent W L k) order [] ≠ .error .fuel → ctxOf (specContent W L k) order [] = .ok ctx) :
-    ∀ k, specLoad W L k n lim ≠ .error .fuel →
-      specLoad W L k n lim = (match lim with
-        | .start => .ok ctx
-        | _ => if (beforeLimit content lim).2 then .ok (ctx ++ okItems (beforeLimit content lim).1) else .error .limit) := by
-  intro k hk
-  unfold specLoad at hk ⊢
-  simp only [htopo] at hk ⊢
-  cases hc : specContent W L k n with
-  | error e' =>
-    rw [hc] at hk
-    simp only [] at hk
-    by_cases hf : e' = .fuel
-    · subst hf; exact absurd rfl hk
-    · have := hsp k (by rw [hc]; intro h; cases h; exact hf rfl)
-      rw [hc] at this; cases this
-  | ok c =>
-    have hce := hsp k (by rw [hc]; intro h; cases h)
-    rw [hc] at hce
-    cases hce
-    rw [hc] at hk
-    simp only [hord] at hk ⊢
-    cases hcx : ctxOf (specContent W L k) order [] with
-    | error e' =>
-      rw [hcx] at hk
-      simp only [] at hk
-      by_cases hf : e' = .fuel
-      · subst hf; exact absurd rfl hk
-      · have := hctx k (by rw [hcx]; intro h; cases h; exact hf rfl)
-        rw [hcx] at this; cases this
-    | ok ctx' =>
-      have := hctx k (by rw [hcx]; intro h; cases h)
-      rw [hcx] at this
-      cases this
-      cases lim <;> rfl
+        · simp only [hbl, extendList_ok W L hH, if_true]; exact Or.inl (Or.inl rfl)
+        · simp only [hbl, extendList_ok W L hH, if_true]; exact Or.inr ⟨rfl, i, rfl⟩
 
 /-- when `load_theory` reports a missing limit, the specification says the same -/
 theorem loadBody_limit (hH : Healthy W L) {rec : Call → State → R} (hrec : RecOk W L none rec) (hrec2 : RecOk2 W L rec)
     (n : Name) (lim : Limit) (hn : n ∈ L.names) {s : State} (hi : Inv W L s)
-    (hlim : (loadBody rec n lim s).1 = some .limit) :
+    (hlim : (loadBody W rec n lim s).1 = some .limit) :
     ∀ k, specLoad W L k n lim ≠ .error .fuel → specLoad W L k n lim = .error .limit := by
   revert hlim
   unfold loadBody
@@ -321,11 +297,11 @@ theorem loadBody_limit (hH : Healthy W L) {rec : Call → State → R} (hrec : R
     rw [hord]
     simp only []
     have hsc : SameCore s1 { s1 with thy := some [] } := ⟨rfl, rfl, rfl⟩
-    have hlo := loopDeps_ok W L (rec := fun p s => rec (.ltc p) s) (fun p s hs => hrec (.ltc p) s hs)
+    have hlo := loopDeps_ok W L hH (rec := fun p s => rec (.ltc p) s) (fun p s hs => hrec (.ltc p) s hs)
       (fun p s hs hp => hrec2 (.ltc p) s hs hp) ord { s1 with thy := some [] } [] (hrel.inv.of_sameCore hsc) hmem
     have hloop := loopDeps_post W L (fun p s => rec (.ltc p) s) (fun p s hs => hrec (.ltc p) s hs) ord
       { s1 with thy := some [] } [] (hrel.inv.of_sameCore hsc)
-    rcases hlp : loopDeps (fun p s => rec (.ltc p) s) ord { s1 with thy := some [] } [] with ⟨r2, s2, deps⟩
+    rcases hlp : loopDeps W (fun p s => rec (.ltc p) s) ord { s1 with thy := some [] } [] with ⟨r2, s2, deps⟩
     rw [hlp] at hlo hloop
     obtain ⟨hr2, _, hctx⟩ := hloop
     simp only [] at hr2 hctx
@@ -337,8 +313,8 @@ theorem loadBody_limit (hH : Healthy W L) {rec : Call → State → R} (hrec : R
     | none =>
       simp only []
       obtain ⟨e2, he2, hs2⟩ := ((Rel.of_sameCore hrel.inv hsc).trans hr2).mono n e he hs
-      have hctx' : ∀ k, ctxOf (specContent W L k) ord [] ≠ .error .fuel →
-          ctxOf (specContent W L k) ord [] = .ok (s2.thy.getD []) := hctx rfl
+      have hctx' : ∀ k, ctxOf W (specContent W L k) ord [] ≠ .error .fuel →
+          ctxOf W (specContent W L k) ord [] = .ok (s2.thy.getD []) := hctx rfl
       have hspec := specLoad_eq W L n lim ord e2.content (s2.thy.getD []) hH.topo hord
         (cache_spec W L hr2.inv he2 hs2) hctx'
       unfold loadFinish
@@ -347,16 +323,16 @@ theorem loadBody_limit (hH : Healthy W L) {rec : Call → State → R} (hrec : R
       | none =>
         simp only [he2]
         have hbl : (beforeLimit e2.content .none).2 = true := rfl
-        simp only [hbl, if_true]
+        simp only [hbl, extendList_ok W L hH, if_true]
         intro hlim; simp at hlim
       | item i =>
         simp only [he2]
         by_cases hbl : (beforeLimit e2.content (.item i)).2 = true
-        · simp only [hbl, if_true]; intro hlim; simp at hlim
-        · simp only [hbl]
+        · simp only [hbl, extendList_ok W L hH, if_true]; intro hlim; simp at hlim
+        · simp only [hbl, extendList_ok W L hH, if_true]
           intro _ k hk
           rw [hspec k hk]
-          simp only [hbl]
+          simp only [hbl, extendList_ok W L hH, if_true]
           rfl
 
 theorem exec_ok (hH : Healthy W L) : ∀ f, RecOk2 W L (exec W none f) := by
